@@ -62,8 +62,15 @@ def read_bmp(b: bytes) -> Optional[Tuple[int, int, bytes]]:
     return (w, h, bytes(out))
 
 
+# kind -> (bits per component, components).  gray8/rgb8/bit1 are the kinds the property names; the others only occur
+# as unfiltered inline images whose data must still be captured exactly (rows padded to whole bytes).
+KIND_SHAPE = {"gray8": (8, 1), "rgb8": (8, 3), "bit1": (1, 1), "gray4": (4, 1), "gray2": (2, 1), "gray16": (16, 1),
+              "cmyk8": (8, 4), "rgb4": (4, 3), "jpeg-gray": (8, 1), "jpeg-rgb": (8, 3)}
+
+
 def row_bytes(kind: str, w: int) -> int:
-    return {"gray8": w, "rgb8": 3 * w, "bit1": (w + 7) // 8}[kind]
+    bpc, n = KIND_SHAPE[kind]
+    return (w * bpc * n + 7) // 8
 
 
 def expected_rgb(kind: str, w: int, h: int, data: bytes) -> bytes:
@@ -156,6 +163,60 @@ LETTER = {"Flate": "F", "A85": "A", "AHx": "H", "RL": "R", "LZW": "L", "DCT": "D
           "CCF": "C"}
 
 
+def _paeth(a: int, b: int, c: int) -> int:
+    p = a + b - c
+    pa, pb, pc = abs(p - a), abs(p - b), abs(p - c)
+    if pa <= pb and pa <= pc:
+        return a
+    return b if pb <= pc else c
+
+
+def predict_encode(data: bytes, predictor: int, colors: int, bpc: int, columns: int, rng=None) -> bytes:
+    """Inverse of the predictor functions of ISO 32000-1 7.4.4.4: TIFF predictor 2 (8-bit components) and the PNG
+    predictors 10..15 (every row gets a tag byte: 10 None, 11 Sub, 12 Up, 13 Average, 14 Paeth, 15 = any per row)."""
+    if predictor == 1:
+        return data
+    rb = (columns * colors * bpc + 7) // 8
+    rows = [data[i:i + rb] for i in range(0, len(data), rb)]
+    out = bytearray()
+    if predictor == 2:
+        assert bpc == 8
+        for row in rows:
+            out += bytes((row[i] - (row[i - colors] if i >= colors else 0)) % 256 for i in range(len(row)))
+        return bytes(out)
+    bpp = max(1, colors * bpc // 8)
+    prev = bytes(rb)
+    for row in rows:
+        ft = predictor - 10 if predictor < 15 else (rng.randrange(5) if rng is not None else (len(out) // 7) % 5)
+        out.append(ft)
+        for i in range(len(row)):
+            left = row[i - bpp] if i >= bpp else 0
+            up = prev[i] if i < len(prev) else 0
+            ul = prev[i - bpp] if i >= bpp and i - bpp < len(prev) else 0
+            pred = (0, left, up, (left + up) // 2, _paeth(left, up, ul))[ft]
+            out.append((row[i] - pred) % 256)
+        prev = row
+    return bytes(out)
+
+
+def predictor_parms(img: Dict[str, Any]) -> Optional[Dict[str, Any]]:
+    p = img.get("predictor")
+    fl = img.get("filters") or []
+    if not p or not fl or fl[-1] not in ("Flate", "LZW") or img["kind"] not in KIND_SHAPE or img["kind"].startswith("jpeg"):
+        return None          # a predictor belongs to the Flate/LZW filter that is decoded last
+    bpc, nc = KIND_SHAPE[img["kind"]]
+    return {"Predictor": p, "Colors": nc, "BitsPerComponent": bpc, "Columns": img["w"]}
+
+
+def encode_image(img: Dict[str, Any], rng=None) -> bytes:
+    """Sample data of an image spec -> stream payload (predictor of the last filter, then the filter chain)."""
+    data = bytes.fromhex(img["data"])
+    pp = predictor_parms(img)
+    if pp is not None:
+        data = predict_encode(data, pp["Predictor"], pp["Colors"], pp["BitsPerComponent"], pp["Columns"], rng)
+    return encode_chain(data, img.get("filters", []), rng)
+
+
 def encode_chain(data: bytes, filters: List[str], rng=None) -> bytes:
     """`filters` is the /Filter array order (decoder applies first to last) -> encode last to first.
     DCT is a pass-through (the data already is the JPEG file)."""
@@ -185,6 +246,9 @@ def has_marker(b: bytes, target: bytes = b"EI") -> bool:
 CS_LONG = {"gray8": "DeviceGray", "rgb8": "DeviceRGB", "bit1": "DeviceGray", "jpeg-gray": "DeviceGray",
            "jpeg-rgb": "DeviceRGB"}
 CS_ABBR = {"gray8": "G", "rgb8": "RGB", "bit1": "G", "jpeg-gray": "G", "jpeg-rgb": "RGB"}
+for _k, (_b, _n) in KIND_SHAPE.items():
+    CS_LONG.setdefault(_k, {1: "DeviceGray", 3: "DeviceRGB", 4: "DeviceCMYK"}[_n])
+    CS_ABBR.setdefault(_k, {1: "G", 3: "RGB", 4: "CMYK"}[_n])
 
 
 def image_dict(img: Dict[str, Any], inline: bool, abbreviate: bool = True) -> Dict[str, Any]:
@@ -194,7 +258,7 @@ def image_dict(img: Dict[str, Any], inline: bool, abbreviate: bool = True) -> Di
     kind = img["kind"]
     if kind == "other":
         kind = "gray8"       # placeholder colour space / bits: overridden from img["cslist"], img["bits"]
-    bpc = 1 if kind == "bit1" else 8
+    bpc = KIND_SHAPE[kind][0]
     fl = img.get("filters", [])
     if inline:
         sp = img.get("spell") or {k: bool(abbreviate) for k in ("W", "H", "BPC", "CS", "F", "CSv", "Fv")}
@@ -205,6 +269,10 @@ def image_dict(img: Dict[str, Any], inline: bool, abbreviate: bool = True) -> Di
         if fl:
             names = ABBR if sp.get("Fv", True) else LONG
             d[key("F")] = names[fl[0]] if len(fl) == 1 else [names[f] for f in fl]
+        pp = predictor_parms(img)
+        if pp is not None:
+            # (empty dictionaries, not null, for the other filters: the content-stream parser has no `null` object)
+            d["DP" if sp.get("F", True) else "DecodeParms"] = pp if len(fl) == 1 else [{}] * (len(fl) - 1) + [pp]
         # rarely used entries that do not change the samples: interpolate flag, identity decode array, rendering intent
         for k, v in (img.get("extras") or {}).items():
             d[k] = v
@@ -213,6 +281,9 @@ def image_dict(img: Dict[str, Any], inline: bool, abbreviate: bool = True) -> Di
         d = dict({"Type": "XObject", "Subtype": "Image"}, **d)
         if fl:
             d["Filter"] = LONG[fl[0]] if len(fl) == 1 else [LONG[f] for f in fl]
+        pp = predictor_parms(img)
+        if pp is not None:
+            d["DecodeParms"] = pp if len(fl) == 1 else [None] * (len(fl) - 1) + [pp]
     return d
 
 
